@@ -48,7 +48,9 @@ def phase_calls(body):
 
 
 def err_blocks(body):
-    """blocks that belong to an Err exit: Break arms of `?` and explicit Err aggregates into _0"""
+    """blocks that belong to an Err exit: Break arms of `?`, explicit Err aggregates into _0, and the `Err(..)` arm of a
+    `match` / `if let` on a Result when that arm builds an Err value and no Ok value (`Err(e) => Err(e).wrap_err(..)`,
+    `Err(e) => return Err(e.into())` - the hand-written forms of `?`)"""
     out = set()
     for b in body.normal_blocks():
         t = body.term(b)
@@ -57,6 +59,31 @@ def err_blocks(body):
         for st in body.stmts(b):
             if st[0] == "=" and st[1] == [0, []] and st[2][0] == "agg" and st[2][1].get("vname") == "Err":
                 out.add(b)
+    for b in body.normal_blocks():
+        t = body.term(b)
+        if t["k"] != "switch":
+            continue
+        # the scrutinee: `_d = discriminant(place)` in this block, `place` a Result
+        d_op = t["discr"]
+        ty = ""
+        if isinstance(d_op, list) and d_op[0] in ("move", "copy") and not d_op[1][1]:
+            for st in body.stmts(b):
+                if st[0] == "=" and st[1] == [d_op[1][0], []] and st[2][0] == "discr":
+                    try:
+                        ty = body.local_ty(st[2][1][0]) or ""
+                    except Exception:
+                        ty = ""
+        if not ty.lstrip("&").replace("mut ", "").startswith("core::result::Result<"):
+            continue
+        arm = next((tb for (v, tb) in t["targets"] if v == 1), None)
+        if arm is None and len(t["targets"]) == 1 and t["targets"][0][0] == 0:
+            arm = t.get("otherwise")
+        if arm is None:
+            continue
+        region = {x for x in body.reachable_from(arm) if body.dominates(arm, x)}
+        builds = [st[2][1].get("vname") for x in region for st in body.stmts(x) if st[0] == "=" and st[2][0] == "agg" and st[2][1].get("vname") in ("Ok", "Err")]
+        if "Err" in builds and "Ok" not in builds:
+            out |= region
     return out
 
 
